@@ -111,6 +111,28 @@ def wl_cache_history(ctx, rng, case_no):
                         if cells.get_character_cell_size(ch) != cellref.char_width(ch):
                             ctx.violation("codepoint-width-mismatch", {"cp": hex(cp)})
                     ctx.count("codepoint_cache_floods")
+    # related strings: prefixes / extensions / permutations of one another, measured right after each other in
+    # both orders - a cache keyed by anything coarser than the string itself returns a neighbour's answer
+    for _ in range(20):
+        base = S.free_string(rng, rng.choice([8, 40, 63, 64, 65, 80]), w, space=0.1, min_len=4)
+        family = {base}
+        for _ in range(6):
+            k = rng.randint(1, len(base))
+            family.add(base[:k])
+            family.add(base[k:])
+            family.add(base[:k] + S.rand_char(rng, w) + base[k:])
+            family.add(base + S.rand_char(rng, w))
+        family.add(base[::-1])
+        family.add(base.swapcase())
+        family = [f for f in family if f]
+        for order in (sorted(family, key=len), sorted(family, key=len, reverse=True)):
+            for f in order:
+                got = cells.cell_len(f)
+                ctx.count("mon.cache_history")
+                if got != cellref.width(f):
+                    ctx.violation("cell_len-history-dependent", {"s": f, "got": got, "ref": cellref.width(f),
+                                                                 "after_measuring": "a related string (prefix/extension)"})
+                    break
     ctx.case_done(("hist", tuple(pool[:5])), True, {"pool_size": len(pool), "first": pool[:3]})
 
 
